@@ -38,7 +38,7 @@
      (in particular "height - DPOSStartHeight >= 6" reads the old
      DPOSStartHeight even when the resume closure is queued in front of it);
      the undo closures restore both DPOSStartHeight and LastIrreversibleHeight
-     (since the repair ac1a41f0 of C21's finding; before it the advancing
+     (since the repair ff7a11db of C21's finding; before it the advancing
      branch left LastIrreversibleHeight untouched).
 
    Not modelled: the side-chain block cache lookup at the head of
@@ -71,7 +71,7 @@ Record params := mkParams {
 Inductive undo :=
 | UInit (ol od : Z)   (* initialisation branch: restores LIH (= 0) and DPOSStartHeight *)
 | UKeep (ol od : Z).  (* resume / advancing branches: restore both as well
-                         (repair ac1a41f0; before it only DPOSStartHeight) *)
+                         (repair ff7a11db; before it only DPOSStartHeight) *)
 
 Record irr := mkIrr {
   lih : Z;                     (* State.LastIrreversibleHeight *)
